@@ -665,6 +665,9 @@ impl Abs {
 struct Pred {
   /// A flag `Err(*)` stands for a refusal with any error: the documentation names no error for that case.
   allowed: Vec<(String, Abs)>,
+  /// The same outcomes with every entry list in the order the insertion-order model gives it (`OrderedSet`: "Ordering
+  /// is based on insert order"; `append` "adds a new value to the end"; a removal takes one entry out of the list).
+  ordered: Vec<(String, Abs)>,
   /// Key to report when the real operation was accepted although every allowed outcome is a refusal.
   accept_key: Option<&'static str>,
   ambiguous: bool,
@@ -803,7 +806,7 @@ fn predict(abs: &Abs, op: &Op) -> Pred {
       None => vec![("None".to_string(), same())],
     },
   };
-  Pred { allowed: allowed.into_iter().map(|(f, a)| (f, a.sorted())).collect(), accept_key, ambiguous, open }
+  Pred { allowed: allowed.iter().map(|(f, a)| (f.clone(), a.sorted())).collect(), ordered: allowed, accept_key, ambiguous, open }
 }
 /// Coarse class of a result flag.
 fn class(flag: &str) -> &'static str {
@@ -1345,6 +1348,16 @@ fn step(sink: &Sink, s: &St, op: Op, count_depth: bool) -> Option<St> {
     sink.col.violation(&key, &what, &case);
     return None;
   }
+  // (vi-b) the entry lists are ordered sets ("Ordering is based on insert order"): a new entry goes to the end of its
+  //        list, a removal takes exactly its entry out and leaves the others where they are. Fragment queries are
+  //        answered by the first match, so the order is observable through them.
+  if !pred.ordered.iter().any(|(f, a)| flag_fits(f, &flag) && *a == abs) {
+    let case = mk_case(&hist);
+    let what = format!("{} on {} returned {flag}; resulting document {fp}: the entries are the predicted ones, their order is not the insertion order (new entries last, the others where they were)", op.describe(), s.fp);
+    sink.col.violation(&format!("CoreDocument::{name}|resulting-entry-order-differs-from-insertion-order|after-{}", class(&flag)), &what, &case);
+    return None;
+  }
+
   // (v) a refused operation leaves the document unchanged (remove_method documents that it also drops
   //     references to a method that is not in the document, returning None)
   if is_refusal(&flag) && fp != s.fp {
